@@ -218,6 +218,38 @@ def run(ctx: Ctx) -> None:
             finally:
                 torch.randint = real_randint
 
+    # ---- the format is a plain dataclass: its public fields can be re-assigned (an srbits sweep on one object); quantise
+    #      follows the current field values, exactly like a freshly constructed format with those values
+    for (E, M, sb0, sb1) in ((4, 3, None, 4), (4, 3, 3, 6), (5, 2, 8, 2), (3, 4, None, 1)):
+        key = {"E": E, "M": M, "srbits_constructed": sb0, "srbits_reassigned": sb1}
+        R = 1 << sb1
+        gen_ = torch.Generator().manual_seed(E * 31 + M * 7 + sb1)
+        n = 40
+        x1 = (torch.randn(n, generator=gen_) * 2.0 ** torch.randint(-6, 3, (n,), generator=gen_).float())
+        X_ = x1.unsqueeze(0).expand(R, n).contiguous()
+
+        def enum_randint4(low, high, size, dtype=None, **kw):
+            return (low + torch.arange(size[0], dtype=dtype or torch.int64)).unsqueeze(1).expand(tuple(size)).contiguous()
+
+        torch.randint = enum_randint4
+        try:
+            with ctx.guard("C14:reassigned-srbits", key):
+                f_ = FPFormat(E, M, "stochastic") if sb0 is None else FPFormat(E, M, "stochastic", srbits=sb0)
+                f_.quantise(X_[:1])                     # used once as constructed
+                f_.srbits = sb1
+                got_ = f_.quantise(X_)
+                want_ = FPFormat(E, M, "stochastic", srbits=sb1).quantise(X_)
+                ctx.evaluations += R * n
+                distinct += R * n
+                ctx.bump("reassigned-srbits", R * n)
+                if not torch.equal(got_, want_):
+                    j = int((got_ != want_).any(dim=0).nonzero()[0])
+                    ctx.violation("C14:reassigned-srbits", "after re-assigning `srbits` the format does not round like a format "
+                                  "constructed with that value (draws enumerated)", {**key, "x": float(x1[j])},
+                                  {"got": sorted(set(got_[:, j].tolist())), "want": sorted(set(want_[:, j].tolist()))})
+        finally:
+            torch.randint = real_randint
+
     # ---- several formats in one autograd graph: every straight-through op rounds with ITS format (exponent, mantissa,
     #      random-bit count, rounding mode), whichever other formats have ops in the same graph and whenever backward runs
     pairs_ = [((4, 3, "stochastic", 3), (5, 2, "stochastic", 5)), ((4, 3, "stochastic", 2), (4, 3, "stochastic", 6)),
